@@ -17,9 +17,10 @@ import (
 // the eval side returns true only when both direction verdicts are true.
 func DirectionCombination(p *core.Program, r *core.Report, rule string) {
 	// list side
-	if fd := p.Func(core.PkgEval, "PolicyEngine", "allAllowedConnectionsBetweenPeers"); fd == nil {
+	if entry := p.Func(core.PkgEval, "PolicyEngine", "allAllowedConnectionsBetweenPeers"); entry == nil {
 		r.Lost(rule, "(*PolicyEngine).allAllowedConnectionsBetweenPeers")
 	} else {
+		fd := directionSite(p, r, rule, entry, "allAllowedXgressConnections")
 		info := fd.Pkg.TypesInfo
 		dirVar := map[types.Object]string{} // result variable -> "ingress"/"egress"
 		ast.Inspect(fd.Decl.Body, func(n ast.Node) bool {
@@ -85,9 +86,10 @@ func DirectionCombination(p *core.Program, r *core.Report, rule string) {
 		}
 	}
 	// eval side
-	if fd := p.Func(core.PkgEval, "PolicyEngine", "CheckIfAllowed"); fd == nil {
+	if entry := p.Func(core.PkgEval, "PolicyEngine", "CheckIfAllowed"); entry == nil {
 		r.Lost(rule, "(*PolicyEngine).CheckIfAllowed")
 	} else {
+		fd := directionSite(p, r, rule, entry, "allowedXgressConnection")
 		info := fd.Pkg.TypesInfo
 		var eg, in *types.Var
 		ast.Inspect(fd.Decl.Body, func(n ast.Node) bool {
@@ -166,6 +168,71 @@ func DirectionCombination(p *core.Program, r *core.Report, rule string) {
 		}
 	}
 	r.Floor(rule, 5)
+}
+
+// directionSite: the function in which the two directions are evaluated - the entry itself, or the method of the engine
+// it delegates the uncached computation to (then every successful return of the entry that follows the delegation
+// hands back the delegate's verdict unchanged, which is checked here).
+func directionSite(p *core.Program, r *core.Report, rule string, entry *core.FuncDecl, dirFn string) *core.FuncDecl {
+	calls := func(g *core.FuncDecl) bool {
+		found := false
+		ast.Inspect(g.Decl.Body, func(n ast.Node) bool {
+			if c, ok := n.(*ast.CallExpr); ok {
+				if fn := core.Callee(g.Pkg.TypesInfo, c); fn != nil && fn.Name() == dirFn && p.IsModuleFunc(fn) {
+					found = true
+				}
+			}
+			return !found
+		})
+		return found
+	}
+	if calls(entry) {
+		return entry
+	}
+	info := entry.Pkg.TypesInfo
+	var site *core.FuncDecl
+	var resVar types.Object
+	var assign ast.Node
+	ast.Inspect(entry.Decl.Body, func(n ast.Node) bool {
+		as, ok := n.(*ast.AssignStmt)
+		if !ok || len(as.Rhs) != 1 || site != nil {
+			return true
+		}
+		c, ok := ast.Unparen(as.Rhs[0]).(*ast.CallExpr)
+		if !ok {
+			return true
+		}
+		hd := p.ByObj[core.Callee(info, c)]
+		if hd == nil || hd.Pkg.PkgPath != entry.Pkg.PkgPath || !calls(hd) {
+			return true
+		}
+		if id, isId := as.Lhs[0].(*ast.Ident); isId {
+			site, resVar, assign = hd, info.ObjectOf(id), as
+		}
+		return true
+	})
+	if site == nil {
+		return entry
+	}
+	w := facts.NewWalker(info)
+	w.Transfer = func(st int, n ast.Node, f facts.Formula) int {
+		if n == assign {
+			return 1
+		}
+		return st
+	}
+	bad := ""
+	w.OnExit = func(st int, ret *ast.ReturnStmt, f facts.Formula) {
+		if st != 1 || ret == nil || len(ret.Results) == 0 || IsErrorReturn(p, w, entry.Obj, ret, f) {
+			return
+		}
+		if id, ok := ast.Unparen(ret.Results[0]).(*ast.Ident); !ok || info.ObjectOf(id) != resVar {
+			bad = "`return " + core.ExprStr(ret.Results[0]) + "` at " + p.Pos(ret.Pos())
+		}
+	}
+	w.WalkBody(entry.Decl.Body, nil)
+	r.Check(bad == "", rule, entry.Key()+": hands back the verdict of "+site.Obj.Name()+" unchanged", p.Pos(assign.Pos()), "", "after delegating the evaluation of both directions the entry returns something else: "+bad)
+	return site
 }
 
 // IPMembershipPolarity: an IP peer matches an ipBlock rule iff the peer's
